@@ -1,16 +1,25 @@
-// Package threadgen translates the thread database of the CURRENT sdf/screw.go into Coq.
+// Package threadgen translates the screw-thread code of the CURRENT source tree into Coq.
 //
-// It parses package sdf with go/parser and evaluates constant expressions exactly with
-// go/constant.  Emitted into coq/Generated/Threads.v on every run:
+// It parses package sdf (and obj) with go/parser, evaluates constant expressions exactly with
+// go/constant and executes the loop-free Go code it reads symbolically (interp.go).  Written into
+// coq/Generated on every run:
 //
+// Threads.v (Generate):
 //   - the record ThreadParameters (from the Go struct),
-//   - the functions UTSAdd / ISOAdd / NPTAdd and ToMillimetre as Gallina over the Ops record
-//     (straight-line field assignments translated expression by expression),
-//   - every call m.XXXAdd("name", a, b, c) of initThreadLookup as a row: name string, which
-//     Add function, and each argument's constant expression as an exact rational,
+//   - the functions UTSAdd / ISOAdd / NPTAdd and ToMillimetre as Gallina over the Ops record,
+//   - every call m.XXXAdd("name", a, b, c) that initThreadLookup makes as a row: name string, which
+//     Add method, and each argument's constant expression as an exact rational,
 //   - the unit constants.
 //
-// A construct the translator does not understand is an error (a broken tie), never skipped.
+// ThreadExpr.v (GenerateExpr, exprgen.go): SawTooth, DtoR, Screw3D, ScrewSDF3.Evaluate, ISOThread.
+// ObjThread.v (GenerateObj, objgen.go): the construction of obj.Nut and obj.Bolt as skeleton terms.
+//
+// Because the code is executed rather than pattern-matched, behaviour-preserving rewrites give the
+// same output: a body moved into an unexported helper that is called instead, local variables,
+// keyed literals instead of field assignments (or a copy of the receiver that is then modified),
+// named constants, if/else instead of switch, rows added by a helper function or by a loop over a
+// literal table.  A construct the translator does not understand is an error (a broken tie),
+// never skipped.
 package threadgen
 
 import (
@@ -37,22 +46,30 @@ type Row struct {
 }
 
 type pkg struct {
-	fset   *token.FileSet
-	consts map[string]ast.Expr
-	funcs  map[string]*ast.FuncDecl
-	types  map[string]*ast.StructType
+	fset       *token.FileSet
+	consts     map[string]ast.Expr
+	funcs      map[string]*ast.FuncDecl
+	types      map[string]*ast.StructType
+	vars       map[string]ast.Expr // package-level variables with an initialiser
+	imports    map[string]bool     // names under which the files import other packages
+	sinfo      map[string]*structInfo
+	needRecord map[string]bool // struct types a generated function returns
+	root       string
 }
 
 // loadPkg parses every non-test file of <repo>/sdf.
-func loadPkg(repo string) (*pkg, error) {
+func loadPkg(repo string) (*pkg, error) { return loadPkgDir(repo, "sdf") }
+
+func loadPkgDir(repo, sub string) (*pkg, error) {
 	fset := token.NewFileSet()
-	dir := filepath.Join(repo, "sdf")
+	dir := filepath.Join(repo, sub)
 	matches, err := filepath.Glob(filepath.Join(dir, "*.go"))
 	if err != nil {
 		return nil, err
 	}
 	sort.Strings(matches)
-	p := &pkg{fset: fset, consts: map[string]ast.Expr{}, funcs: map[string]*ast.FuncDecl{}, types: map[string]*ast.StructType{}}
+	p := &pkg{fset: fset, consts: map[string]ast.Expr{}, funcs: map[string]*ast.FuncDecl{}, types: map[string]*ast.StructType{},
+		needRecord: map[string]bool{}, root: repo, vars: map[string]ast.Expr{}, imports: map[string]bool{}, sinfo: map[string]*structInfo{}}
 	for _, f := range matches {
 		if strings.HasSuffix(f, "_test.go") {
 			continue
@@ -61,15 +78,28 @@ func loadPkg(repo string) (*pkg, error) {
 		if err != nil {
 			return nil, fmt.Errorf("threadgen: %v", err)
 		}
+		for _, im := range af.Imports {
+			path, _ := strconv.Unquote(im.Path.Value)
+			name := path[strings.LastIndex(path, "/")+1:]
+			if im.Name != nil {
+				name = im.Name.Name
+			}
+			p.imports[name] = true
+		}
 		for _, d := range af.Decls {
 			switch d := d.(type) {
 			case *ast.GenDecl:
 				for _, s := range d.Specs {
 					switch s := s.(type) {
 					case *ast.ValueSpec:
-						if d.Tok == token.CONST && len(s.Values) == len(s.Names) {
+						if d.Tok == token.CONST && len(s.Values) == len(s.Names) && s.Type == nil {
 							for i, n := range s.Names {
 								p.consts[n.Name] = s.Values[i]
+							}
+						}
+						if d.Tok == token.VAR && len(s.Values) == len(s.Names) {
+							for i, n := range s.Names {
+								p.vars[n.Name] = s.Values[i]
 							}
 						}
 					case *ast.TypeSpec:
@@ -102,6 +132,16 @@ func recvName(e ast.Expr) string {
 
 func (p *pkg) pos(n ast.Node) string { return p.fset.Position(n.Pos()).String() }
 
+// rel: file:line relative to the source tree (for the comments of the generated files)
+func (p *pkg) rel(n ast.Node) string {
+	q := p.fset.Position(n.Pos())
+	f, err := filepath.Rel(p.root, q.Filename)
+	if err != nil {
+		f = q.Filename
+	}
+	return fmt.Sprintf("%s:%d", f, q.Line)
+}
+
 // constEval evaluates a constant expression exactly, with Go's untyped-constant semantics.
 func (p *pkg) constEval(e ast.Expr, depth int) (constant.Value, error) {
 	if depth > 50 {
@@ -109,6 +149,13 @@ func (p *pkg) constEval(e ast.Expr, depth int) (constant.Value, error) {
 	}
 	switch e := e.(type) {
 	case *ast.BasicLit:
+		if e.Kind == token.STRING {
+			s, err := strconv.Unquote(e.Value)
+			if err != nil {
+				return nil, fmt.Errorf("%s: %v", p.pos(e), err)
+			}
+			return constant.MakeString(s), nil
+		}
 		if e.Kind != token.INT && e.Kind != token.FLOAT {
 			return nil, fmt.Errorf("%s: literal %s is not numeric", p.pos(e), e.Value)
 		}
@@ -124,7 +171,7 @@ func (p *pkg) constEval(e ast.Expr, depth int) (constant.Value, error) {
 		if err != nil {
 			return nil, err
 		}
-		if e.Op != token.SUB && e.Op != token.ADD {
+		if (e.Op != token.SUB && e.Op != token.ADD) || (x.Kind() != constant.Int && x.Kind() != constant.Float) {
 			return nil, fmt.Errorf("%s: unary %s", p.pos(e), e.Op)
 		}
 		return constant.UnaryOp(e.Op, x, 0), nil
@@ -138,6 +185,11 @@ func (p *pkg) constEval(e ast.Expr, depth int) (constant.Value, error) {
 			return nil, err
 		}
 		op := e.Op
+		for _, v := range []constant.Value{x, y} {
+			if v.Kind() != constant.Int && v.Kind() != constant.Float {
+				return nil, fmt.Errorf("%s: operator %s on constants that are not numbers", p.pos(e), op)
+			}
+		}
 		switch op {
 		case token.ADD, token.SUB, token.MUL:
 		case token.QUO:
@@ -157,6 +209,10 @@ func (p *pkg) constEval(e ast.Expr, depth int) (constant.Value, error) {
 			return nil, fmt.Errorf("%s: %s is not a package constant", p.pos(e), e.Name)
 		}
 		return p.constEval(d, depth+1)
+	case *ast.SelectorExpr:
+		if id, ok := e.X.(*ast.Ident); ok && id.Name == "math" && e.Sel.Name == "Pi" {
+			return constant.MakeFromLiteral(piLiteral, token.FLOAT, 0), nil
+		}
 	}
 	return nil, fmt.Errorf("%s: not a constant expression the translator understands (%T)", p.pos(e), e)
 }
@@ -191,80 +247,32 @@ func (p *pkg) ConstRat(name string) (*big.Rat, error) {
 	return toRat(v)
 }
 
-// Rows lists the calls of initThreadLookup in source order.
+// Rows lists the calls of exported threadDatabase methods that initThreadLookup makes, in
+// execution order (the body is executed symbolically: helper functions and loops over literal
+// tables are followed).
 func (p *pkg) Rows() ([]Row, error) {
 	fd, ok := p.funcs["initThreadLookup"]
 	if !ok {
 		return nil, fmt.Errorf("threadgen: func initThreadLookup not found")
 	}
-	var rows []Row
-	for _, st := range fd.Body.List {
-		switch st := st.(type) {
-		case *ast.AssignStmt: // m := make(threadDatabase)
-			if len(st.Lhs) == 1 && len(st.Rhs) == 1 {
-				if c, ok := st.Rhs[0].(*ast.CallExpr); ok {
-					if id, ok := c.Fun.(*ast.Ident); ok && id.Name == "make" {
-						continue
-					}
-				}
-			}
-			return nil, fmt.Errorf("%s: unexpected assignment in initThreadLookup", p.pos(st))
-		case *ast.ReturnStmt:
-			continue
-		case *ast.ExprStmt:
-			c, ok := st.X.(*ast.CallExpr)
-			if !ok {
-				return nil, fmt.Errorf("%s: unexpected statement in initThreadLookup", p.pos(st))
-			}
-			sel, ok := c.Fun.(*ast.SelectorExpr)
-			if !ok {
-				return nil, fmt.Errorf("%s: unexpected call in initThreadLookup", p.pos(st))
-			}
-			fn := sel.Sel.Name
-			if _, ok := p.funcs["threadDatabase."+fn]; !ok {
-				return nil, fmt.Errorf("%s: %s is not a method of threadDatabase", p.pos(st), fn)
-			}
-			if len(c.Args) < 2 {
-				return nil, fmt.Errorf("%s: too few arguments", p.pos(st))
-			}
-			lit, ok := c.Args[0].(*ast.BasicLit)
-			if !ok || lit.Kind != token.STRING {
-				return nil, fmt.Errorf("%s: thread name is not a string literal", p.pos(st))
-			}
-			name, err := strconv.Unquote(lit.Value)
-			if err != nil {
-				return nil, fmt.Errorf("%s: %v", p.pos(st), err)
-			}
-			r := Row{Name: name, Fn: fn, Src: p.pos(st)}
-			for _, a := range c.Args[1:] {
-				v, err := p.constEval(a, 0)
-				if err != nil {
-					return nil, err
-				}
-				q, err := toRat(v)
-				if err != nil {
-					return nil, fmt.Errorf("%s: %v", p.pos(a), err)
-				}
-				r.Args = append(r.Args, q)
-			}
-			rows = append(rows, r)
-		default:
-			return nil, fmt.Errorf("%s: unexpected statement in initThreadLookup (%T)", p.pos(st), st)
-		}
+	in := newInterp(p)
+	in.rowsMode = true
+	fr := newFrame(fd)
+	fr.noLets = true
+	res, err := in.block(fd.Body.List, fr)
+	if err != nil {
+		return nil, err
 	}
-	if len(rows) == 0 {
+	if res == nil || res.k != kDB {
+		return nil, fmt.Errorf("%s: initThreadLookup does not return the database it filled", p.pos(fd))
+	}
+	if len(in.stores) != 0 || len(in.guards) != 0 {
+		return nil, fmt.Errorf("%s: initThreadLookup stores into the database directly; rows are expected to go through the Add methods", p.pos(fd))
+	}
+	if len(in.rows) == 0 {
 		return nil, fmt.Errorf("threadgen: no rows found in initThreadLookup")
 	}
-	return rows, nil
-}
-
-// ---------------------------------------------------------------- expression translation
-
-type env struct {
-	p      *pkg
-	params map[string]bool   // float parameters in scope, by name
-	recv   string            // receiver/record variable (for t.Field), "" if none
-	fields map[string]string // field name -> "string" | "float64"
+	return in.rows, nil
 }
 
 func coqQ(q *big.Rat) string {
@@ -276,279 +284,99 @@ func zlit(z *big.Int) string {
 	}
 	return z.String()
 }
-func coqCst(q *big.Rat) string {
-	return fmt.Sprintf("(cst %s %s)", zlit(q.Num()), q.Denom().String())
-}
 
-// isConst reports whether e is built only from literals and package constants.
-func (v *env) isConst(e ast.Expr) bool {
-	switch e := e.(type) {
-	case *ast.BasicLit:
-		return e.Kind == token.INT || e.Kind == token.FLOAT
-	case *ast.ParenExpr:
-		return v.isConst(e.X)
-	case *ast.UnaryExpr:
-		return v.isConst(e.X)
-	case *ast.BinaryExpr:
-		return v.isConst(e.X) && v.isConst(e.Y)
-	case *ast.Ident:
-		if v.params[e.Name] {
-			return false
-		}
-		_, ok := v.p.consts[e.Name]
-		return ok
-	}
-	return false
-}
+// ---------------------------------------------------------------- the Add methods and ToMillimetre
 
-// expr translates a float64 expression into Gallina over the Ops record.  Constant
-// sub-expressions are folded exactly first (as the Go compiler does) and emitted as `cst n d`.
-func (v *env) expr(e ast.Expr) (string, error) {
-	if v.isConst(e) {
-		c, err := v.p.constEval(e, 0)
-		if err != nil {
-			return "", err
-		}
-		q, err := toRat(c)
-		if err != nil {
-			return "", err
-		}
-		return coqCst(q), nil
+// structInfo describes a struct type of package sdf
+func (p *pkg) structInfo(name string) (*structInfo, error) {
+	if i, ok := p.sinfo[name]; ok {
+		return i, nil
 	}
-	switch e := e.(type) {
-	case *ast.ParenExpr:
-		return v.expr(e.X)
-	case *ast.Ident:
-		if v.params[e.Name] {
-			return e.Name, nil
-		}
-		return "", fmt.Errorf("%s: unknown identifier %s", v.p.pos(e), e.Name)
-	case *ast.SelectorExpr:
-		if id, ok := e.X.(*ast.Ident); ok && id.Name == v.recv && v.recv != "" {
-			if v.fields[e.Sel.Name] != "float64" {
-				return "", fmt.Errorf("%s: field %s is not a float64 field", v.p.pos(e), e.Sel.Name)
-			}
-			return fmt.Sprintf("(%s %s)", e.Sel.Name, v.recv), nil
-		}
-		return "", fmt.Errorf("%s: selector the translator does not understand", v.p.pos(e))
-	case *ast.UnaryExpr:
-		x, err := v.expr(e.X)
-		if err != nil {
-			return "", err
-		}
-		if e.Op == token.SUB {
-			return "(- " + x + ")", nil
-		}
-		return "", fmt.Errorf("%s: unary %s", v.p.pos(e), e.Op)
-	case *ast.BinaryExpr:
-		x, err := v.expr(e.X)
-		if err != nil {
-			return "", err
-		}
-		y, err := v.expr(e.Y)
-		if err != nil {
-			return "", err
-		}
-		switch e.Op {
-		case token.ADD, token.SUB, token.MUL, token.QUO:
-			return fmt.Sprintf("(%s %s %s)", x, e.Op.String(), y), nil
-		}
-		return "", fmt.Errorf("%s: operator %s", v.p.pos(e), e.Op)
-	case *ast.CallExpr:
-		if sel, ok := e.Fun.(*ast.SelectorExpr); ok {
-			if id, ok := sel.X.(*ast.Ident); ok && id.Name == "math" && len(e.Args) == 1 {
-				ops := map[string]string{"Atan": "oatan", "Tan": "otan", "Sin": "osin", "Cos": "ocos", "Sqrt": "osqrt", "Abs": "oabs"}
-				if o, ok := ops[sel.Sel.Name]; ok {
-					x, err := v.expr(e.Args[0])
-					if err != nil {
-						return "", err
-					}
-					return fmt.Sprintf("(%s O %s)", o, x), nil
-				}
-			}
-		}
-		return "", fmt.Errorf("%s: call the translator does not understand", v.p.pos(e))
+	st, ok := p.types[name]
+	if !ok {
+		return nil, fmt.Errorf("threadgen: struct %s not found in package sdf", name)
 	}
-	return "", fmt.Errorf("%s: expression the translator does not understand (%T)", v.p.pos(e), e)
+	info := &structInfo{kinds: map[string]string{}}
+	for _, f := range st.Fields.List {
+		tn := typeName(f.Type)
+		for _, n := range f.Names {
+			info.order = append(info.order, n.Name)
+			info.kinds[n.Name] = tn
+		}
+	}
+	if name == "ThreadParameters" {
+		info.lit = true
+	}
+	p.sinfo[name] = info
+	return info, nil
 }
 
 func (p *pkg) structFields(name string) ([]string, map[string]string, error) {
-	st, ok := p.types[name]
-	if !ok {
-		return nil, nil, fmt.Errorf("threadgen: struct %s not found", name)
+	info, err := p.structInfo(name)
+	if err != nil {
+		return nil, nil, err
 	}
-	var order []string
-	kinds := map[string]string{}
-	for _, f := range st.Fields.List {
-		id, ok := f.Type.(*ast.Ident)
-		if !ok || (id.Name != "string" && id.Name != "float64") {
-			return nil, nil, fmt.Errorf("%s: field type the translator does not understand", p.pos(f))
-		}
-		for _, n := range f.Names {
-			order = append(order, n.Name)
-			kinds[n.Name] = id.Name
+	for _, f := range info.order {
+		if k := info.kinds[f]; k != "string" && k != "float64" {
+			return nil, nil, fmt.Errorf("threadgen: struct %s: field %s has type %s, the translator understands string and float64", name, f, k)
 		}
 	}
-	return order, kinds, nil
+	return info.order, info.kinds, nil
 }
 
-// isPanicGuard recognises `if <param> <= 0 { log.Panicf(...) }` and returns the guarded parameter.
-func isPanicGuard(st *ast.IfStmt) (string, bool) {
-	b, ok := st.Cond.(*ast.BinaryExpr)
-	if !ok || b.Op != token.LEQ || st.Else != nil || st.Init != nil {
-		return "", false
-	}
-	id, ok := b.X.(*ast.Ident)
-	if !ok {
-		return "", false
-	}
-	z, ok := b.Y.(*ast.BasicLit)
-	if !ok || (z.Value != "0" && z.Value != "0.0") {
-		return "", false
-	}
-	if len(st.Body.List) != 1 {
-		return "", false
-	}
-	es, ok := st.Body.List[0].(*ast.ExprStmt)
-	if !ok {
-		return "", false
-	}
-	c, ok := es.X.(*ast.CallExpr)
-	if !ok {
-		return "", false
-	}
-	sel, ok := c.Fun.(*ast.SelectorExpr)
-	if !ok {
-		return "", false
-	}
-	if x, ok := sel.X.(*ast.Ident); !ok || x.Name != "log" || !strings.HasPrefix(sel.Sel.Name, "Panic") {
-		return "", false
-	}
-	return id.Name, true
-}
-
-// addFn translates a threadDatabase.XXXAdd method: returns the Gallina definition and the
-// list of parameters that must be > 0 (the function panics otherwise).
+// addFn translates a threadDatabase.XXXAdd method by symbolic execution (calls of unexported
+// helpers are followed): returns the Gallina definition, the float parameters and those of them
+// that must be > 0 (the function panics otherwise).
 func (p *pkg) addFn(fn string, order []string, kinds map[string]string) (string, []string, []string, error) {
 	fd, ok := p.funcs["threadDatabase."+fn]
 	if !ok {
 		return "", nil, nil, fmt.Errorf("threadgen: method %s not found", fn)
 	}
-	var params []string
-	for i, f := range fd.Type.Params.List {
-		id, ok := f.Type.(*ast.Ident)
-		if !ok {
-			return "", nil, nil, fmt.Errorf("%s: parameter type", p.pos(f))
-		}
-		for _, n := range f.Names {
-			if i == 0 && id.Name == "string" {
-				if n.Name != "name" {
-					return "", nil, nil, fmt.Errorf("%s: first parameter is expected to be name string", p.pos(f))
-				}
-				continue
-			}
-			if id.Name != "float64" {
-				return "", nil, nil, fmt.Errorf("%s: parameter %s is not float64", p.pos(f), n.Name)
-			}
-			params = append(params, n.Name)
-		}
+	in := newInterp(p)
+	fr := newFrame(fd)
+	fr.noLets = true
+	if len(fd.Recv.List) == 1 && len(fd.Recv.List[0].Names) == 1 {
+		fr.vars[fd.Recv.List[0].Names[0].Name] = &cell{v: &val{k: kDB}}
 	}
-	v := &env{p: p, params: map[string]bool{}, fields: kinds}
-	for _, n := range params {
-		v.params[n] = true
-	}
-	vals := map[string]string{}
-	var guards []string
-	rec := ""
-	stored := false
-	for _, st := range fd.Body.List {
-		switch st := st.(type) {
-		case *ast.IfStmt:
-			g, ok := isPanicGuard(st)
-			if !ok || !v.params[g] {
-				return "", nil, nil, fmt.Errorf("%s: if statement the translator does not understand", p.pos(st))
-			}
-			guards = append(guards, g)
-		case *ast.AssignStmt:
-			if len(st.Lhs) != 1 || len(st.Rhs) != 1 {
-				return "", nil, nil, fmt.Errorf("%s: assignment form", p.pos(st))
-			}
-			switch l := st.Lhs[0].(type) {
-			case *ast.Ident: // t := ThreadParameters{}
-				cl, ok := st.Rhs[0].(*ast.CompositeLit)
-				if !ok || len(cl.Elts) != 0 || st.Tok != token.DEFINE {
-					return "", nil, nil, fmt.Errorf("%s: assignment the translator does not understand", p.pos(st))
-				}
-				if id, ok := cl.Type.(*ast.Ident); !ok || id.Name != "ThreadParameters" {
-					return "", nil, nil, fmt.Errorf("%s: composite literal type", p.pos(st))
-				}
-				rec = l.Name
-			case *ast.SelectorExpr: // t.Field = expr
-				id, ok := l.X.(*ast.Ident)
-				if !ok || id.Name != rec || rec == "" || st.Tok != token.ASSIGN {
-					return "", nil, nil, fmt.Errorf("%s: assignment target", p.pos(st))
-				}
-				f := l.Sel.Name
-				switch kinds[f] {
-				case "string":
-					switch r := st.Rhs[0].(type) {
-					case *ast.Ident:
-						if r.Name != "name" {
-							return "", nil, nil, fmt.Errorf("%s: string value", p.pos(st))
-						}
-						vals[f] = "name"
-					case *ast.BasicLit:
-						s, err := strconv.Unquote(r.Value)
-						if err != nil {
-							return "", nil, nil, err
-						}
-						vals[f] = coqString(s)
-					default:
-						return "", nil, nil, fmt.Errorf("%s: string value", p.pos(st))
-					}
-				case "float64":
-					x, err := v.expr(st.Rhs[0])
-					if err != nil {
-						return "", nil, nil, err
-					}
-					vals[f] = x
-				default:
-					return "", nil, nil, fmt.Errorf("%s: unknown field %s", p.pos(st), f)
-				}
-			case *ast.IndexExpr: // m[name] = &t
-				stored = true
-			default:
-				return "", nil, nil, fmt.Errorf("%s: assignment the translator does not understand", p.pos(st))
-			}
+	var params, binders []string
+	for i, q := range paramList(fd.Type.Params) {
+		switch {
+		case i == 0 && q[1] == "string":
+			fr.vars[q[0]] = &cell{v: &val{k: kStr, s: "name"}}
+		case q[1] == "float64":
+			params = append(params, q[0])
+			binders = append(binders, coqIdent(q[0]))
+			fr.vars[q[0]] = &cell{v: &val{k: kFloat, s: coqIdent(q[0]), param: q[0]}}
 		default:
-			return "", nil, nil, fmt.Errorf("%s: statement the translator does not understand (%T)", p.pos(st), st)
+			return "", nil, nil, fmt.Errorf("%s: %s: parameter %s of type %s (expected name string, then float64 parameters)", p.pos(fd), fn, q[0], q[1])
 		}
 	}
-	if !stored || rec == "" {
-		return "", nil, nil, fmt.Errorf("threadgen: %s does not store a record", fn)
+	res, err := in.block(fd.Body.List, fr)
+	if err != nil {
+		return "", nil, nil, err
+	}
+	if res != nil && res.k != kNone {
+		return "", nil, nil, fmt.Errorf("%s: %s returns a value", p.pos(fd), fn)
+	}
+	if len(in.stores) != 1 {
+		return "", nil, nil, fmt.Errorf("%s: %s stores %d records into the database, expected one", p.pos(fd), fn, len(in.stores))
+	}
+	st := in.stores[0]
+	if st.key.s != "name" {
+		return "", nil, nil, fmt.Errorf("%s: %s stores its record under a key that is not the name parameter", p.pos(fd), fn)
+	}
+	rec := st.ptr.cell.v.rec
+	var guards []string
+	for _, g := range in.guards {
+		guards = append(guards, g.param)
+	}
+	lit, err := in.recTerm(fd, rec)
+	if err != nil {
+		return "", nil, nil, err
 	}
 	var b strings.Builder
-	fmt.Fprintf(&b, "  Definition %s (name : string) (%s : T O) : ThreadParameters :=\n    {| ", fn, strings.Join(params, " "))
-	for i, f := range order {
-		val, ok := vals[f]
-		if !ok { // Go zero value
-			if kinds[f] == "string" {
-				val = "EmptyString"
-			} else {
-				val = "o0 O"
-			}
-		}
-		if i > 0 {
-			b.WriteString(";\n       ")
-		}
-		fmt.Fprintf(&b, "%s := %s", f, val)
-	}
-	b.WriteString(" |}.\n")
+	fmt.Fprintf(&b, "  Definition %s (name : string) (%s : T O) : ThreadParameters :=\n    %s.\n", fn, strings.Join(binders, " "), lit)
 	return b.String(), params, guards, nil
-}
-
-func coqString(s string) string {
-	return "\"" + strings.ReplaceAll(s, "\"", "\"\"") + "\"%string"
 }
 
 // toMM translates ThreadParameters.ToMillimetre.
@@ -557,100 +385,40 @@ func (p *pkg) toMM(order []string, kinds map[string]string) (string, error) {
 	if !ok {
 		return "", fmt.Errorf("threadgen: method ToMillimetre not found")
 	}
+	if len(paramList(fd.Type.Params)) != 0 || fd.Recv == nil || len(fd.Recv.List[0].Names) != 1 {
+		return "", fmt.Errorf("%s: ToMillimetre: unexpected signature", p.pos(fd))
+	}
+	in := newInterp(p)
+	fr := newFrame(fd)
+	fr.noLets = true
 	recv := fd.Recv.List[0].Names[0].Name
-	v := &env{p: p, params: map[string]bool{}, recv: recv, fields: kinds}
-	if len(fd.Body.List) != 2 {
-		return "", fmt.Errorf("%s: ToMillimetre: expected `if t.Units == \"mm\" { return t }; return &ThreadParameters{...}`", p.pos(fd))
+	rv := &val{k: kRec, rec: &record{typ: "ThreadParameters", whole: coqIdent(recv), f: map[string]*val{}}}
+	if strings.HasPrefix(typeName(fd.Recv.List[0].Type), "*") {
+		fr.vars[recv] = &cell{v: &val{k: kPtr, cell: &cell{v: rv}}}
+	} else {
+		fr.vars[recv] = &cell{v: rv}
 	}
-	ifs, ok := fd.Body.List[0].(*ast.IfStmt)
-	if !ok {
-		return "", fmt.Errorf("%s: ToMillimetre: first statement", p.pos(fd.Body.List[0]))
+	res, err := in.block(fd.Body.List, fr)
+	if err != nil {
+		return "", err
 	}
-	cond, ok := ifs.Cond.(*ast.BinaryExpr)
-	if !ok || cond.Op != token.EQL {
-		return "", fmt.Errorf("%s: ToMillimetre: condition", p.pos(ifs))
+	if res == nil {
+		return "", fmt.Errorf("%s: ToMillimetre does not return on every path", p.pos(fd))
 	}
-	sel, ok := cond.X.(*ast.SelectorExpr)
-	lit, ok2 := cond.Y.(*ast.BasicLit)
-	if !ok || !ok2 || lit.Kind != token.STRING || kinds[sel.Sel.Name] != "string" {
-		return "", fmt.Errorf("%s: ToMillimetre: condition", p.pos(ifs))
+	if len(in.guards) != 0 || len(in.stores) != 0 {
+		return "", fmt.Errorf("%s: ToMillimetre has effects", p.pos(fd))
 	}
-	if id, ok := sel.X.(*ast.Ident); !ok || id.Name != recv {
-		return "", fmt.Errorf("%s: ToMillimetre: condition", p.pos(ifs))
+	if res.k == kPtr {
+		res = res.cell.v
 	}
-	unit, _ := strconv.Unquote(lit.Value)
-	if len(ifs.Body.List) != 1 || ifs.Else != nil {
-		return "", fmt.Errorf("%s: ToMillimetre: then-branch", p.pos(ifs))
+	if res.k != kRec || res.rec.typ != "ThreadParameters" {
+		return "", fmt.Errorf("%s: ToMillimetre does not return a ThreadParameters", p.pos(fd))
 	}
-	if rs, ok := ifs.Body.List[0].(*ast.ReturnStmt); !ok || len(rs.Results) != 1 {
-		return "", fmt.Errorf("%s: ToMillimetre: then-branch", p.pos(ifs))
-	} else if id, ok := rs.Results[0].(*ast.Ident); !ok || id.Name != recv {
-		return "", fmt.Errorf("%s: ToMillimetre: then-branch must return the receiver", p.pos(ifs))
+	t, err := in.recTerm(fd, res.rec)
+	if err != nil {
+		return "", err
 	}
-	rs, ok := fd.Body.List[1].(*ast.ReturnStmt)
-	if !ok || len(rs.Results) != 1 {
-		return "", fmt.Errorf("%s: ToMillimetre: return", p.pos(fd.Body.List[1]))
-	}
-	ue, ok := rs.Results[0].(*ast.UnaryExpr)
-	if !ok || ue.Op != token.AND {
-		return "", fmt.Errorf("%s: ToMillimetre: return value", p.pos(rs))
-	}
-	cl, ok := ue.X.(*ast.CompositeLit)
-	if !ok {
-		return "", fmt.Errorf("%s: ToMillimetre: return value", p.pos(rs))
-	}
-	vals := map[string]string{}
-	for _, el := range cl.Elts {
-		kv, ok := el.(*ast.KeyValueExpr)
-		if !ok {
-			return "", fmt.Errorf("%s: ToMillimetre: unkeyed literal", p.pos(el))
-		}
-		f := kv.Key.(*ast.Ident).Name
-		switch kinds[f] {
-		case "string":
-			switch r := kv.Value.(type) {
-			case *ast.BasicLit:
-				s, err := strconv.Unquote(r.Value)
-				if err != nil {
-					return "", err
-				}
-				vals[f] = coqString(s)
-			case *ast.SelectorExpr:
-				if id, ok := r.X.(*ast.Ident); !ok || id.Name != recv || kinds[r.Sel.Name] != "string" {
-					return "", fmt.Errorf("%s: ToMillimetre: string field value", p.pos(kv))
-				}
-				vals[f] = fmt.Sprintf("(%s %s)", r.Sel.Name, recv)
-			default:
-				return "", fmt.Errorf("%s: ToMillimetre: string field value", p.pos(kv))
-			}
-		case "float64":
-			x, err := v.expr(kv.Value)
-			if err != nil {
-				return "", err
-			}
-			vals[f] = x
-		default:
-			return "", fmt.Errorf("%s: ToMillimetre: unknown field %s", p.pos(kv), f)
-		}
-	}
-	var b strings.Builder
-	fmt.Fprintf(&b, "  Definition ToMillimetre (%s : ThreadParameters) : ThreadParameters :=\n    if String.eqb (%s %s) %s then %s else\n    {| ", recv, sel.Sel.Name, recv, coqString(unit), recv)
-	for i, f := range order {
-		val, ok := vals[f]
-		if !ok {
-			if kinds[f] == "string" {
-				val = "EmptyString"
-			} else {
-				val = "o0 O"
-			}
-		}
-		if i > 0 {
-			b.WriteString(";\n       ")
-		}
-		fmt.Fprintf(&b, "%s := %s", f, val)
-	}
-	b.WriteString(" |}.\n")
-	return b.String(), nil
+	return fmt.Sprintf("  Definition ToMillimetre (%s : ThreadParameters) : ThreadParameters :=\n    %s.\n", coqIdent(recv), t), nil
 }
 
 // Generate produces the text of coq/Generated/Threads.v and the rows.
